@@ -34,6 +34,11 @@ def plan(ctx):
                               bounds="15 x 15 key pairs (int 1, Decimal 1 / 1.0 / 1.50, True, '1', None, 'None', ...), values symbolic; "
                                      "functools.lru_cache left active (CrossHair normally bypasses it)",
                               desc=f"eval({text!r}) vs map model: equal-valued keys with different string forms are different keys"))
+    from sqv.harness import c14 as h14
+    for i, (text, _e) in enumerate(h14.LITKEYS):
+        obs.append(Obligation(f"literal_keys.t{i}", "xh", "c14", "literal_keys", param={"lk": i}, timeout=T,
+                              bounds="value -3..3; subscripts written as number literals next to the same numbers held in host variables",
+                              desc=f"eval({text!r}): literal subscripts are cast like any other key / index"))
     return {
         "obligations": obs,
         "explanation": "CrossHair (z3): one container operation through SqParser.eval (sugar lowered by the real parser) from an arbitrary "
